@@ -11,6 +11,7 @@
     C14_task_counterexample   witness of the open finding D60 (one-partition nested group in an n-partition group)
     C14_meta              npartitions / ndim (meta) of `Fused G` are those of `G[0]`
     C14_substitute        the substitution of `Fused G` for `G[0]` leaves the value of every key of every other expression (and of the plan's root) unchanged
+    C14_loop_values       … and so does the whole loop of `optimize_blockwise_fusion`: the returned plan's root has the original root's value
     C14_terminates        a successful pass strictly decreases the number of reachable blockwise nodes
     C14_loop_terminates   hence the outer loop of `optimize_blockwise_fusion` stops
     C14_walk_total        the operand walk never exhausts its fuel
@@ -19,6 +20,7 @@ import DxModel.Lemmas.FusionPass
 import DxModel.Lemmas.FusionMeasure
 import DxModel.Lemmas.FusionTask
 import DxModel.Lemmas.FusionSubst
+import DxModel.Lemmas.FusionLoop
 namespace Dx
 open Fusion
 
@@ -238,6 +240,7 @@ example : run I0 (refGraph C14Ex.dag) (fun _ => some (.frame [])) 5 (.part 4 1) 
 
 /-! ### 4. termination -/
 
+
 /-- `planOKb` (FusionCheck.lean) is a decidable sufficient condition for `PlanOK`: the root is a node
     and operands have smaller names than their consumers (the harness numbers plans in post-order). -/
 theorem C14_planok_check_sound (dag : Dag) (root : Nat) (h : planOKb dag root = true) : PlanOK dag root := by
@@ -289,5 +292,31 @@ example : (fuseLoop ordId 4 C14Ex.dag 4 0).map (fun r => r.2.2) = some 1 := by d
 /-- The operand walk of the first half of `_fusion_pass` never exhausts its fuel. -/
 theorem C14_walk_total (dag : Dag) (root : Nat) : (globalMaps dag root).isSome = true :=
   globalMaps_total dag root
+
+/-- **The whole of `optimize_blockwise_fusion`.**  Whatever the outer `while True` returns — after any
+    number of passes — computes at its root, for every partition `i`, the value the original plan
+    computes at its root (reference semantics; all sufficiently large fuels on both sides).  The
+    invariants carried from pass to pass are proven, not assumed: the plan after a pass is again
+    well formed (`PlanOK`), acyclic (a rank is constructed: `Fused G` ranks just above `G[0]` — no member
+    outranks `G[0]` because every other member has a parent inside the group) and its `Fused` nodes
+    name members of the plan. -/
+theorem C14_loop_values (I : Interp) (ord : Nat → List Nat → List Nat) (hord : OrdOK ord)
+    (inp : FKey → Option V) (fuel : Nat) (dag : Dag) (root n : Nat) (dag' : Dag) (root' n' : Nat)
+    (h : fuseLoop ord fuel dag root n = some (dag', root', n'))
+    (hplan : PlanOK dag root) (hrk : ∃ ρ, RankedBy dag ρ) (hmk : MembersKnown dag) (i : Nat) :
+    ∃ B B', ∀ N N', B ≤ N → B' ≤ N' →
+      run I (refGraph dag') inp N' (.part root' i) = run I (refGraph dag) inp N (.part root i) :=
+  fuseLoop_values I ord hord inp fuel dag root n dag' root' n' h hplan hrk hmk i
+
+/-- the decidable hypotheses the driver re-checks on every real plan imply those of `C14_loop_values` -/
+theorem C14_loop_hyps_of_check (dag : Dag) (root : Nat) (h1 : planOKb dag root = true) (h2 : substOKb dag root = true) :
+    PlanOK dag root ∧ (∃ ρ, RankedBy dag ρ) ∧ MembersKnown dag := by
+  unfold substOKb at h2
+  simp only [Bool.and_eq_true] at h2
+  exact ⟨C14_planok_check_sound dag root h1, ⟨id, nameRankedB_sound dag h2.1.1⟩, membersKnownB_sound dag h2.1.2⟩
+
+/-! non-vacuity: `C14Ex.dag` satisfies the checked hypotheses and the loop returns (root 5 after one successful pass) -/
+example : planOKb C14Ex.dag 4 = true ∧ substOKb C14Ex.dag 4 = true := by decide
+example : (fuseLoop ordId 4 C14Ex.dag 4 0).map (fun r => (r.2.1, r.2.2)) = some (5, 1) := by decide
 
 end Dx
